@@ -55,9 +55,11 @@ fn main() {
                     "buffered_across_pending/zip",
                     "buffered_across_pending/zip_longest",
                     "buffered_across_pending/cross_singleton",
-                    "inner_iter_held_across_pending",
+                    "inner_iter_held_across_pending/flat_map",
+                    "inner_iter_held_across_pending/flatten",
                     "future_in_flight_across_pending",
-                    "inner_stream_held_across_pending",
+                    "inner_stream_held_across_pending/flat_map_stream",
+                    "inner_stream_held_across_pending/flatten_stream",
                     "one_side_ended_other_pending",
                     "stream_ready_resumed_after_end_of_tick",
                     "terminal/collect",
